@@ -14,7 +14,7 @@ from ..runner import Acc
 ID = 'C19'
 LEVEL = 'model_checking'
 RULE = ('programs (facts, rules with cut / if-then-else / negation, atoms with embedded newlines and with a # after a '
-        'newline, atoms containing every other line separator (bare CR, CR LF, VT, FF, FS/GS/RS, NEL, LS, PS), non-ASCII atoms, atoms with NUL and other control characters, a 140 KiB source with two-byte characters at even and odd offsets, lists and anonymous variables, empty and comment-only files, a syntax error, a character outside the lexicon, 300 nested redundant parentheses, a '
+        'newline, atoms containing every other line separator (bare CR, CR LF, VT, FF, FS/GS/RS, NEL, LS, PS), non-ASCII atoms, atoms with NUL and other control characters, a 140 KiB source with two-byte characters at even and odd offsets, lists and anonymous variables, empty and comment-only files, a syntax error, a character outside the lexicon, 400 nested redundant parentheses, a '
         'non-callable goal, a clause too large for Python, an unsupported term) x ALL 16 combinations of -d '
         '--debug-parser --debug-generator --debug-filename x {stdout, -o file that already exists with longer content} x {file argument, - with the text on '
         'standard input, the path /dev/stdin fed from a pipe (a source that is not a regular file)} x {one source, two sources, a second source that does not compile, a first source that does not compile followed by this one, a first source that stops in the middle of a clause followed by this one}, each run as a real '
@@ -50,7 +50,7 @@ PROGRAMS = [
     ('large-non-ascii', "first('\u00fc').\n% " + '\u00e9' * 35000 + "\nmiddle('\u00e4\u00f6').\n%  " + '\u00e9' * 35000 + "\nlast('Z\u00fcrich', '\u4e94').\n", 'ok'),
     ('lexical-error', 'foo(a).\nbar(b#).\nbaz(c).\n', 'syntax'),
     # redundant parentheses: deep for the parser and the visitor, flat for the generated code
-    ('deep-parentheses', 'p(%sa%s).\n' % ('(' * 300, ')' * 300), 'ok'),
+    ('deep-parentheses', 'p(%sa%s).\n' % ('(' * 400, ')' * 400), 'ok'),
     ('open-ended', 'wet(X) :- rain(X),\n', 'syntax'),
     ('multiline-clause', "longer(\n  'first\nsecond',\n  X\n) :-\n  true,\n  X = 'x'.\n", 'ok'),
 ]
